@@ -618,6 +618,7 @@ def _eval_members(self, init, flow_of, literals):
     import copy
     env = {}            # local name -> list of entries (name, flow, conds, lineno)
     tables = {}         # local name -> ast.Dict whose values are dictionaries
+    keyed = {}          # local name -> ast.Dict keyed by something else than member names (enum members): rows for .items()
     result = []
     state = {"ok": True, "seen_super": False}
 
@@ -663,6 +664,14 @@ def _eval_members(self, init, flow_of, literals):
             # a comprehension over a literal table of rows: one conditional entry per row
             g = node.generators[0]
             lit = g.iter if isinstance(g.iter, (ast.Tuple, ast.List)) else literals.get(g.iter.id) if isinstance(g.iter, ast.Name) else None
+            if lit is None and isinstance(g.iter, ast.Call) and isinstance(g.iter.func, ast.Attribute) and g.iter.func.attr == "items" and \
+                    not g.iter.args and isinstance(g.iter.func.value, ast.Name) and g.iter.func.value.id in keyed:
+                # D.items() of a local dictionary display: one (key, value) row per entry, in display order
+                dd = keyed[g.iter.func.value.id]
+                lit = ast.Tuple(elts=[ast.Tuple(elts=[k_, v_], ctx=ast.Load()) for k_, v_ in zip(dd.keys, dd.values)], ctx=ast.Load())
+                for e_ in lit.elts:
+                    ast.copy_location(e_, e_.elts[0])
+                ast.copy_location(lit, dd)
             tg = g.target
             if lit is None or not (isinstance(tg, ast.Tuple) and all(isinstance(t, ast.Name) for t in tg.elts)) or \
                     not all(isinstance(e, (ast.Tuple, ast.List)) and len(e.elts) == len(tg.elts) for e in lit.elts):
@@ -747,6 +756,10 @@ def _eval_members(self, init, flow_of, literals):
                 if isinstance(v, (ast.Tuple, ast.List)) and v.elts and all(isinstance(e, (ast.Tuple, ast.List)) for e in v.elts) and not conds:
                     literals = dict(literals)
                     literals[name] = v                  # a local table of rows
+                    continue
+                if isinstance(v, ast.Dict) and v.keys and all(k is not None and not (isinstance(k, ast.Constant) and isinstance(k.value, str)) for k in v.keys) \
+                        and all(flow_of(x) is not None for x in v.values) and not conds:
+                    keyed[name] = v
                     continue
                 ents = dict_of(v, ())
                 if ents is not None:
